@@ -171,3 +171,38 @@ impl<I: Interner> Table<I> {
 impl AnswerIndex {
     pub(crate) const ZERO: AnswerIndex = AnswerIndex { value: 0 };
 }
+
+#[cfg(feature = "verif-hooks")]
+impl<I: Interner> Table<I> {
+    /// Verification hook: a textual dump of everything in this table that can
+    /// influence later solving. The forest-clock stamp of each strand is
+    /// zeroed: it is only ever compared (`<`) with clock values produced
+    /// later, which are always larger.
+    pub(crate) fn verif_dump(&self) -> String {
+        let strands: Vec<CanonicalStrand<I>> = self
+            .strands
+            .iter()
+            .map(|s| {
+                let mut s = s.clone();
+                s.value.last_pursued_time = Default::default();
+                s
+            })
+            .collect();
+        let mut hashed: Vec<String> = self
+            .answers_hash
+            .iter()
+            .map(|(k, v)| format!("{:?}=>{:?}", k, v))
+            .collect();
+        hashed.sort();
+        format!(
+            "goal={:?} coinductive={:?} floundered={:?} mode={:?} answers={:?} hashed={:?} strands={:?}",
+            self.table_goal,
+            self.coinductive_goal,
+            self.floundered,
+            self.answer_mode,
+            self.answers,
+            hashed,
+            strands
+        )
+    }
+}
